@@ -255,6 +255,11 @@ class AsyncApi:
         except StopAsyncIteration:
             return None
 
+    async def second_access(self, h, how):
+        if how == "read":
+            return await h.resp.aread()
+        return b"".join([c async for c in h.resp.aiter_stream()])
+
     async def close(self, h):
         if not h.closed:
             h.closed = True
@@ -317,6 +322,11 @@ class SyncApi:
             return next(h.it)
         except StopIteration:
             return None
+
+    async def second_access(self, h, how):
+        if how == "read":
+            return h.resp.read()
+        return b"".join([c for c in h.resp.iter_stream()])
 
     async def close(self, h):
         if not h.closed:
@@ -426,6 +436,16 @@ async def _consume(api, world, name, token, h, consume, out):
             out["body"] = b"".join(chunks)
             if isinstance(consume, dict) and consume.get("slow"):
                 await api.sleep(consume["slow"])
+        if isinstance(consume, dict) and consume.get("then"):
+            # having stopped part-way, the caller asks for the body a second time
+            try:
+                d = await api.second_access(h, consume["then"])
+                out["second_access"] = ("data", len(d), d[:16], d[-16:])
+            except SimAbort:
+                raise
+            except Exception as e:   # noqa: BLE001
+                # (the wording names the method, which differs between the variants)
+                out["second_access"] = ("exc", type(e).__name__)
 
 
 async def do_request(api, world, name, oi, op):
